@@ -178,6 +178,19 @@ CLAIMS = {
     technique="registration-table coverage, return-kind provenance, one-sided-comparison (sign symmetry) lint on gates "
               "dominating the %z parse, provenance of the signed operand, flag-obligation (computed-then-ignored) check",
     ref="DESIGN.md 3/C14"),
+ "C19": dict(
+    text="Static purity mechanisms (not equality of results across histories): every default is handed out through "
+         "copy_value, which copies nested sequences and mappings (R19a = R05a); no mutating operation - call, bound "
+         "mutator reference, subscript / attribute store, del - is applied to an object whose provenance is an "
+         "input-carrying parameter of the parse core, converters or validators (aliases, elements and attributes "
+         "followed; copies break the chain) (R19b); every write to state that outlives the call, enumerated from the "
+         "runtime entries over the receiver-aware call graph whether locked or not, is one of the listed semantically "
+         "transparent memos (R19c); the per-call context is never stored on a shared object (R19d).",
+    note="Undecided: aliasing of unconverted containers between input and output (not a mutation during parsing); "
+         "equality of outcomes across call histories (needs replay against fresh-process results).",
+    technique="provenance of mutator receivers from input parameters, shared-write inventory over the call graph "
+              "against an enumerated allow-list, must-pass-through of the default copy",
+    ref="DESIGN.md 3/C19"),
  "C20": dict(
     text="Static inventory over a receiver-aware call graph with lock regions: every write to state shared between "
          "threads (parser objects, fields, rule classes, ForwardRef objects, converter registries, module memos, "
